@@ -85,6 +85,55 @@ Fields == {"pc","psr","regs","ssp","mcr","prefetch","fno","frames","icount","obs
 Mismatch(s, p) == { n \in Fields : ~FieldOK(n, s, p) }
 
 ---------------------------------------------------------------------------
+\* C29 / C31: what a new simulator holds.  Rec[1] is the `Os` record (blocks of the
+\* built-in OS object file, contiguous from x0000).
+OsBlocks == IF N >= 1 /\ Rec[1].ev = "Os" THEN Rec[1].blocks ELSE <<>>
+RECURSIVE FlatFrom(_, _)
+FlatFrom(bs, k) == IF k > Len(bs) THEN <<>> ELSE bs[k].w \o FlatFrom(bs, k + 1)
+OsFlat == FlatFrom(OsBlocks, 1)                   \* word at address a is OsFlat[a + 1]
+OsContiguous == /\ Len(OsBlocks) >= 1 /\ OsBlocks[1].s = 0
+                /\ \A k \in 2..Len(OsBlocks) : OsBlocks[k].s = OsBlocks[k-1].s + Len(OsBlocks[k-1].w)
+InOs(a) == a < Len(OsFlat)
+
+NewOK(h) ==
+  LET r == Rec[h]  p == r.proj  segs == r.segs
+      known == r.init.k = "known"
+      fillw == IF known THEN <<r.init.v, 0>> ELSE <<0, 0>>
+      covered(a) == \E k \in 1..Len(segs) : segs[k].s <= a /\ a < segs[k].s + Len(segs[k].w)
+  IN
+  /\ OsContiguous
+  /\ r.fill = fillw
+  \* every logged word is what its address class prescribes
+  /\ \A k \in 1..Len(segs) : \A i \in 1..Len(segs[k].w) :
+        LET a == segs[k].s + i - 1  x == segs[k].w[i] IN
+        IF InOs(a) THEN (IF OsFlat[a + 1] >= 0 THEN x = <<OsFlat[a + 1], 65535>> ELSE x[2] = 0)
+        ELSE IF a >= IO_START THEN x = <<0, 65535>>
+        ELSE x[2] = 0 /\ (known => FALSE)        \* known: such words equal the fill and are not logged
+  \* the OS image and the I/O page are present (they differ from the fill word)
+  /\ \A a \in 0..(Len(OsFlat) - 1) : OsFlat[a + 1] >= 0 => covered(a)
+  /\ \A a \in IO_START..65535 : covered(a)
+  \* registers and control state of a new machine
+  /\ \A i \in 1..8 : p.regs[i][2] = 0 /\ (known => p.regs[i][1] = r.init.v)
+  /\ p.pc = 12288 /\ p.psr = 32770 /\ p.ssp = <<12288, 65535>> /\ p.fno = 0 /\ p.icount = 0
+  /\ p.frames = <<>> /\ p.obs = <<>> /\ p.prefetch = 0 /\ p.hit_halt = 0 /\ p.hit_bp = 0
+  /\ p.dbgf = r.flags.dbg
+
+\* Simulator::reset: a new machine with the same flags; flags, MCR handle,
+\* internal-register map and device table are kept and the devices io_reset.
+IoResetDev(d, draws) == CASE d.k = "kbd" -> [d EXCEPT !.ie = FALSE]
+                          [] d.k = "timer" -> [d EXCEPT !.time = draws[d.slot]]
+                          [] OTHER -> d
+ResetTo(s, draws) ==
+  LET f == FromHeader(s.base) IN
+  [f EXCEPT !.flags = s.flags, !.dbgf = s.flags.dbg, !.mcr = s.mcr, !.ireg = s.ireg, !.ports = s.ports,
+            !.devs = [j \in 1..Len(s.devs) |-> IoResetDev(s.devs[j], draws)],
+            !.kbd = IF \E j \in 1..Len(s.devs) : s.devs[j].k = "kbd" THEN <<>> ELSE s.kbd,
+            !.disp = IF \E j \in 1..Len(s.devs) : s.devs[j].k = "disp" THEN <<>> ELSE s.disp,
+            !.memw = <<>>, !.dirty = [a \in DOMAIN s.memw |-> s.memw[a]]]
+ResetDrawsOK(s, draws) == \A j \in 1..Len(s.devs) : s.devs[j].k = "timer" =>
+                             draws[s.devs[j].slot] >= s.devs[j].lo /\ draws[s.devs[j].slot] <= s.devs[j].hi
+
+---------------------------------------------------------------------------
 \* events
 Clean(s) == [s EXCEPT !.dirty = <<>>]
 
@@ -212,6 +261,20 @@ ApplyHost(s0, r) ==
          THEN [st |-> [LoadBlocks(s, BlocksOf(r.blocks), 1) EXCEPT !.alloca = AllocaSeq(r.proj.alloca)],
                bad |-> IF IsAllocaOf(AllocaSeq(r.proj.alloca), BlocksOf(r.blocks)) /\ r.ext = 0 THEN {} ELSE {"alloca"}]
          ELSE [st |-> s, bad |-> IF r.res = "UnresolvedExternal" /\ r.ext = 1 THEN {} ELSE {"res"}]
+    [] r.op = "reset" ->
+         [st |-> ResetTo(s, r.draws),
+          bad |-> (IF r.mcr_same = 1 /\ r.bp_before = r.bp_after THEN {} ELSE {"kept"})
+             \cup (IF ResetDrawsOK(s, r.draws) THEN {} ELSE {"draw"})]
+    [] r.op = "addbp" -> ok(s)
+    [] r.op = "setmcr" -> ok([s EXCEPT !.mcr = B(r.v)])
+    [] r.op = "timeren" ->
+         ok([s EXCEPT !.devs = [j \in 1..Len(@) |-> IF @[j].k = "timer" /\ @[j].slot = r.slot
+                                                     THEN [@[j] EXCEPT !.en = B(r.en)] ELSE @[j]]])
+    [] r.op = "rmdev" ->
+         IF r.id + 1 > Len(s.devs) THEN ok(s)
+         ELSE ok([s EXCEPT !.devs[r.id + 1] = NullDev,
+                           !.ports = IF r.id \in {0, 1, 2} THEN @
+                                     ELSE [a \in { x \in DOMAIN @ : @[x] # r.id } |-> @[a]]])
     [] r.op = "prefetchpc" ->
          [st |-> s, bad |-> IF r.v = PrefetchPc(s) THEN {} ELSE {"prefetchpc"}]
 
@@ -225,7 +288,7 @@ Apply(s, r) ==
 ---------------------------------------------------------------------------
 Init == /\ l \in { k \in 1..N : Rec[k].ev = "New" }
         /\ st = FromHeader(l)
-        /\ why = {}
+        /\ why = IF NewOK(l) THEN {} ELSE {"newok"}
 
 Next == /\ why = {}
         /\ l + 1 <= N
